@@ -317,11 +317,16 @@ func (p *parser) parseScheduleEvent(pos *Pos, n *yaml.Node) *ScheduledEvent {
 		m := p.parseMapping("element of \"schedule\" section", c, false, true)
 		if len(m) != 1 || m[0].id != "cron" {
 			p.error(c, "element of \"schedule\" section must be mapping and must contain one key \"cron\"")
-			continue
 		}
-		s := p.parseString(m[0].val, false)
-		if s != nil {
-			cron = append(cron, s)
+		// Check "cron" even if the element has some other keys
+		for _, kv := range m {
+			if kv.id != "cron" {
+				continue
+			}
+			s := p.parseString(kv.val, false)
+			if s != nil {
+				cron = append(cron, s)
+			}
 		}
 	}
 
